@@ -2,6 +2,7 @@ mod checks;
 mod cmp;
 mod dec;
 mod gast;
+mod irgen;
 mod ggen;
 mod model;
 mod pipeline;
@@ -35,16 +36,21 @@ fn main() {
                 _ => usage(),
             };
             runner::start_watchdog(tier.pick(1500, 6 * 3600));
-            let report = match args[2].as_str() {
-                "C01" => checks::c01::run(tier, seed),
-                _ => {
-                    eprintln!("unknown property {}", args[2]);
-                    std::process::exit(2);
-                }
+            let Some(report) = checks::run(&args[2], tier, seed) else {
+                eprintln!("unknown property {}", args[2]);
+                std::process::exit(2);
             };
             std::process::exit(report.finish());
         }
         "probe" => probe::run(&args[2]),
+        "child" => {
+            let stack_kb: usize = args.get(4).and_then(|s| s.parse().ok()).unwrap_or(8192);
+            let f: fn(&[u8]) -> String = match args[2].as_str() {
+                "c11_decode" => checks::c11::child_decode,
+                _ => usage(),
+            };
+            runner::child_main(&args[3], stack_kb, f);
+        }
         "replay" => {
             let text = std::fs::read_to_string(&args[3]).expect("replay file");
             let doc: serde_json::Value = serde_json::from_str(&text).expect("replay json");
@@ -60,12 +66,9 @@ fn main() {
                     _ => {}
                 }
             }
-            let report = match args[2].as_str() {
-                "C01" => checks::c01::replay(&phase, &tape, seed),
-                _ => {
-                    eprintln!("unknown property {}", args[2]);
-                    std::process::exit(2);
-                }
+            let Some(report) = checks::replay(&args[2], &phase, &tape, seed) else {
+                eprintln!("unknown property {}", args[2]);
+                std::process::exit(2);
             };
             std::process::exit(report.finish());
         }
